@@ -105,7 +105,10 @@ Fixpoint poly_seq_gfq (bits q : Z) (qs : list preq) (r : list Z) (s : Z) : list 
      ModularRandIter(F, seed = 0, size = 0)     : _givrand(seed), _size(size ? size : F.cardinality())   -- the size is kept, never used
      GIV_randIter(F, seed = 0, size = 0)        : _size(clamped, see giv_randiter_size), _givrand(seed)
      GeneralRingRandIter(F, seed = 0, size = 0) : _size(size ? size : F.cardinality()), _givrand(seed)
-   copy constructor: copies _size and _givrand.   operator= : copies _givrand ONLY (_size is const) *)
+   copy constructor: copies _size and _givrand.
+   operator= : if (this != &R) { _givrand = R._givrand; [_size = R._size;] const_cast<Ring&>(_ring) = R._ring; }
+   the statement in brackets is the repair 7a77cad; Params.randiter_assign_copies_size (read from givranditer.h on every run)
+   says whether the tree under check has it.  Without it the target keeps its own sampling size. *)
 Inductive ri_class : Type := RIModular | RIGiv | RIGeneral.
 Record ri_state : Type := { ri_size : Z; ri_gen : Z }.
 Definition ri_ctor_size (c : ri_class) (size card : Z) : Z :=
@@ -130,7 +133,8 @@ Inductive ri_op : Type :=
 | IDraw (a0 : Z)                  (* it.random(a) / it(a) / it() / it.random()                                  *)
 | INzDraw (a0 : Z)                (* GeneralRingNonZeroRandIter around it: do _r.random(a); while (isZero(a));  *)
 | ICopy                           (* go on with a copy-constructed iterator                                     *)
-| IAssignInto (size_other : Z).   (* another iterator (own sampling size) is assigned this one; go on with it   *)
+| IAssignInto (size_other : Z)    (* another iterator (own ring, sampling size, seed) is assigned this one; go on with it *)
+| ISelfAssign.                    (* it = it : guarded by `if (this != &R)`                                     *)
 Fixpoint ri_nonzero (fuel : nat) (draw : ri_draw_fn) (st : ri_state) : option (Z * ri_state) :=
   match fuel with
   | O => None
@@ -143,7 +147,8 @@ Definition ri_step (fuel : nat) (draw : ri_draw_fn) (st : ri_state) (op : ri_op)
   | IDraw _ => let '(a, g1) := draw (ri_size st) (ri_gen st) in Some (Some a, {| ri_size := ri_size st; ri_gen := g1 |})
   | INzDraw _ => match ri_nonzero fuel draw st with None => None | Some (a, st1) => Some (Some a, st1) end
   | ICopy => Some (None, st)
-  | IAssignInto sz => Some (None, {| ri_size := sz; ri_gen := ri_gen st |})
+  | IAssignInto sz => Some (None, {| ri_size := if randiter_assign_copies_size then ri_size st else sz; ri_gen := ri_gen st |})
+  | ISelfAssign => Some (None, st)
   end.
 Fixpoint ri_run (fuel : nat) (draw : ri_draw_fn) (st : ri_state) (ops : list ri_op) : option (list Z * ri_state) :=
   match ops with
